@@ -111,6 +111,15 @@ def gate (maxNested : Nat) (opts : List Ext) (msgs : MsgList) : Verdict :=
     else if !opts.all (· == .dynamicFee) then .rejectExt      -- ExtensionOptionsDecorator(HasDynamicFeeExtensionOption)
     else .passGate
 
+def isUnknown : Ext → Bool
+  | .unknown _ => true
+  | _ => false
+
+/-- DeliverTx: the transaction decoder refuses any extension option whose type is not registered as a
+    `TxExtensionOptionI` (only the three known ones are) before the ante handler runs -/
+def deliver (maxNested : Nat) (opts : List Ext) (msgs : MsgList) : Verdict :=
+  if opts.any isUnknown then .rejectExt else gate maxNested opts msgs
+
 mutual
   /-- a blocked message somewhere below a MsgExec, or a MsgGrant for a blocked type, at any depth -/
   def badList : MsgList → Bool → Bool
